@@ -7,6 +7,7 @@ run-time monitor in `Spec/C18*.lean`).  Every theorem quantifies over ALL inputs
 import AsmjitVerif.Lemmas.C18Hash
 import AsmjitVerif.Lemmas.C18Bits
 import AsmjitVerif.Lemmas.C18Str2
+import AsmjitVerif.Lemmas.C18Arena2
 namespace AsmjitVerif.C18
 open AsmjitVerif
 
@@ -174,5 +175,52 @@ example : numberText 255 16 6 4 = some ("0x0000FF".toList.map Char.toNat) := by 
 example : (runModel [.string false [97, 98], .number false 42#64 10 0 0, .truncate 3] {}).map content = some [97, 98, 52] := by
   decide
 end Str
+
+/-! ## Arena: every history of `alloc_oneshot / alloc_reusable / free_reusable / reset(soft|hard)` (client language and
+ghost live set in `Spec/C18Arena.lean`; `safe` is the executable monitor: every live region 8-aligned, inside its block,
+pairwise disjoint, dynamic blocks registered and none leaked). -/
+section ArenaS
+open AsmjitVerif.Arena
+
+/-- `arena_disjoint`: after EVERY operation sequence on an arena of any block size / static buffer / malloc limit, the
+live regions are aligned, inside their blocks and pairwise disjoint -/
+theorem arena_safe (minBlock staticSize mallocMax : Nat) (ops : List AOp) :
+    safe (run ops (init minBlock staticSize mallocMax, [])).1 (run ops (init minBlock staticSize mallocMax, [])).2 = true :=
+  arena_safe_general minBlock staticSize mallocMax ops
+
+/-- the same as a `Prop` (`Safe` of Spec/C18Arena.lean) -/
+theorem arena_safe_prop (minBlock staticSize mallocMax : Nat) (ops : List AOp) :
+    Safe (run ops (init minBlock staticSize mallocMax, [])).1 (run ops (init minBlock staticSize mallocMax, [])).2 :=
+  (safe_iff_Safe _ _).mp (arena_safe_general minBlock staticSize mallocMax ops)
+
+/-- `arena_reuses_only_released`: in every reachable state whatever `alloc_oneshot` / `alloc_reusable` returns lies inside a
+block (or is a registered dynamic block) and overlaps NO region that is live at that moment -/
+theorem arena_reuses_only_released (minBlock staticSize mallocMax : Nat) (ops : List AOp) :
+    let (s, live) := run ops (init minBlock staticSize mallocMax, [])
+    (∀ size s' p, size % 8 = 0 → 0 < size → allocOneshot s size = (s', some p) →
+      itemSafe s' (p, size) = true ∧ ∀ it ∈ liveItems live, disjB (p, size) it = true)
+    ∧ (∀ size s' p asz, allocReusable s size = (s', some p, asz) →
+      itemSafe s' (p, asz) = true ∧ ∀ it ∈ liveItems live, disjB (p, asz) it = true) :=
+  Arena.arena_reuses_only_released minBlock staticSize mallocMax ops
+
+/-- `reset_returns_all`: a reset empties the bump pointer, all size-class lists, all dynamic blocks and the live set; a hard
+reset keeps at most the static block -/
+theorem arena_reset_returns_all (s : State) (live : Live) (hard : Bool) :
+    let (s', live') := step (s, live) (.reset hard)
+    s'.ptr = 0 ∧ s'.cur = 0 ∧ s'.slots = List.replicate 8 [] ∧ s'.dyns = [] ∧ live' = [] ∧
+    (hard = true → s'.blocks = if s.hasStatic then s.blocks.take 1 else []) :=
+  reset_returns_all s live hard
+
+/-- after any history a hard reset restores the freshly initialised arena -/
+theorem arena_hard_reset_is_init (minBlock staticSize mallocMax : Nat) (ops : List AOp) :
+    let r := run (ops ++ [.reset true]) (init minBlock staticSize mallocMax, [])
+    r.1.blocks = (init minBlock staticSize mallocMax).blocks ∧ r.1.ptr = 0 ∧ r.1.cur = 0 ∧
+    r.1.slots = List.replicate 8 [] ∧ r.1.dyns = [] ∧ r.2 = [] :=
+  reset_hard_restores_init minBlock staticSize mallocMax ops
+
+-- non-vacuity: live regions exist and `safe` can be false
+example : (run [.one 1000, .get 1 100, .get 2 5000, .put 1, .get 3 128] (init 1024 0, [])).2.length = 3 := by decide
+example : safe (init 1024 0) [(0, .managed 0 0, 8)] = false := by decide
+end ArenaS
 
 end AsmjitVerif.C18
